@@ -1080,6 +1080,11 @@ func c06(c *hx.Ctx) {
 		}
 		runHist(c, u, h, true)
 	}
+	// parallel bursts incl. several reports for the same link object
+	for i := 0; i < n/4; i++ {
+		u, phases := genBursts(c)
+		burstsCase(c, u, phases)
+	}
 	// events delivered from concurrent goroutines
 	nc := n / 10
 	for i := 0; i < nc; i++ {
